@@ -628,7 +628,8 @@ fn is_changed_after_unmarking_chemistry(mathml: Element) -> bool {
         if name(&mathml) == "mrow" {
             if let Some(changed_value) = mathml.attribute_value(CHANGED_ATTR) {
                 // we added an mrow, we can remove it -- but this might be already processed which is the case if "data-id-added" is true (exists)
-                if changed_value == ADDED_ATTR_VALUE && mathml.attribute("data-id-added").is_none() {
+                // an mrow that carries an 'intent' is kept even if it has one child (it is the author's, the mark came from a lifted mstyle/mpadded)
+                if changed_value == ADDED_ATTR_VALUE && mathml.attribute("data-id-added").is_none() && mathml.attribute(INTENT_ATTR).is_none() {
                     // mrows get added for several reasons. One of them is to canonicalize elements like msqrt that can have 1 or more children;
                     //   those should not get removed because the re-parse doesn't add those
                     // Although they would never be added, elements with fixed number of children also shouldn't have the mrow go away
